@@ -77,7 +77,20 @@ func ownMnemonicProbe(dir string) (string, error) {
 		return "", err
 	}
 	seedB, pubB := b.VerifBaseSeed(), b.GetPubKey().String()
+	// the same words, spaced differently (as an operator may type them): refused, or the same seed
+	spaced := ""
+	for _, variant := range []string{strings.Replace(mnemonic, " ", "  ", 1), strings.Replace(mnemonic, " ", "\t", 1), mnemonic + "\r", "  " + mnemonic + " \n"} {
+		log.SetOutput(&bytes.Buffer{})
+		err := b.SetBaseSeed(variant)
+		log.SetOutput(old)
+		if err == nil && !bytes.Equal(b.VerifBaseSeed(), seedA) {
+			spaced = fmt.Sprintf("the same mnemonic words spaced differently (%q...) are accepted and give another seed", variant[:12])
+		}
+	}
 	b.VerifClose()
+	if spaced != "" {
+		return spaced, nil
+	}
 	switch {
 	case !bytes.Equal(seedA, seedA2) || pubA != pubA2:
 		return "the reopened machine has another seed or long-term key than before", nil
